@@ -68,3 +68,31 @@ Qed.
 
 Theorem escape_printable_safe s : safe (escape_printable s).
 Proof. apply escape_from_safe. Qed.
+
+(* ---------- a trailing newline survives escaping ---------- *)
+
+Definition ends_nl (s : str) : Prop := exists p, s = p ++ [10].
+
+(* the bytes of a multi-byte rune after the first are continuation bytes (>= 0x80):
+   the final newline of s ++ "\n" is never swallowed by a rune that starts in s *)
+Lemma decode_width_app (b0 : N) (s' : str) : (snd (decode_rune (b0 :: s' ++ [10%N])) - 1 <= length s')%nat.
+Proof.
+  unfold decode_rune. destruct s' as [|x1 [|x2 [|x3 s']]]; cbn [app length];
+    repeat match goal with |- context [if ?c then _ else _] => destruct c eqn:? end; cbn [snd]; try lia.
+  all: exfalso; repeat match goal with H : _ = true |- _ => vm_compute in H; try discriminate H; clear H end.
+Qed.
+
+Lemma escape_from_nl s k : (k <= length s)%nat -> ends_nl (escape_from (s ++ [10]) k).
+Proof.
+  revert k. induction s as [|b0 s IH]; intros k Hk.
+  - destruct k; [|simpl in Hk; lia]. exists []. reflexivity.
+  - cbn [app escape_from]. destruct k as [|k].
+    + destruct (decode_rune (b0 :: s ++ [10])) as [r w] eqn:Hd.
+      pose proof (decode_width_app b0 s) as Hw. rewrite Hd in Hw. cbn [snd] in Hw.
+      destruct (IH (w - 1)%nat Hw) as [p Hp]. rewrite Hp.
+      exists (escape_piece (b0 :: s ++ [10]) b0 r ++ p). rewrite app_assoc. reflexivity.
+    + apply IH. simpl in Hk. lia.
+Qed.
+
+Lemma escape_ends_nl s : ends_nl s -> ends_nl (escape_printable s).
+Proof. intros [p ->]. apply escape_from_nl. lia. Qed.
